@@ -12,7 +12,7 @@ NOT_APPLICABLE["C13"] = (
 
 PROPS = {
     "C09": {
-        "rules": ["TRAV@C09", "TRAVBASE", "PARCHECK", "BACKPIPE", "PAREMIT", "PREDSPEC", "CTXSHAPE", "VERDICT", "FIELDS", "EXH"],
+        "rules": ["TRAV@C09", "TRAVBASE", "PARCHECK", "BACKPIPE", "PAREMIT", "PREDSPEC", "CTXSHAPE", "ENVSHADOW", "VERDICT", "FIELDS", "EXH"],
         "thorough": [],
         "technique": "static analysis: per-constructor path simulation of visitor overrides (traversal completeness) + pipeline def-use",
         "level_text": "Structural clauses only: every Par loop at any nesting depth reaches Check_ParallelizeLoop before code generation "
@@ -83,7 +83,7 @@ PROPS = {
         "design_ref": "DESIGN.md §3.9, §3.14, §4 C08",
     },
     "C07": {
-        "rules": ["MUT", "ATTRSTORE", "GLOBALSTATE"],
+        "rules": ["MUT", "ATTRSTORE", "ARGMUT", "GLOBALSTATE"],
         "thorough": [],
         "technique": "static analysis: flow-sensitive alias/taint dataflow for shared IR lists with inter-procedural parameter/return summaries; attribute-store and global-state write rules with a triage table",
         "level_text": "Source-level purity, decided for every path at once: there is no statement in src/exo that mutates in place a list stored in an IR node "
@@ -216,7 +216,7 @@ PROPS = {
         "design_ref": "DESIGN.md §3.12, §4 C06",
     },
     "C01": {
-        "rules": ["GUARD", "CONDSPEC", "PREDSPEC", "CHECKFORM", "CTXSHAPE", "EQVSHAPE", "ALIASCLOSED", "WINCOMPOSE", "ZIPLEN", "NAMECONF", "FIELDS", "VERDICT", "VERDICTUSE", "LAYER", "CHILDREN", "EXH", "TRAV@C01", "TRAVBASE", "BYPASS"],
+        "rules": ["GUARD", "CONDSPEC", "PREDSPEC", "CHECKFORM", "CTXSHAPE", "ENVSHADOW", "EQVSHAPE", "ALIASCLOSED", "WINCOMPOSE", "ZIPLEN", "NAMECONF", "FIELDS", "VERDICT", "VERDICTUSE", "LAYER", "CHILDREN", "EXH", "TRAV@C01", "TRAVBASE", "BYPASS"],
         "thorough": [],
         "technique": "static analysis: per-primitive obligation table decided by a must-analysis (dominance of side conditions over tree edits, with raising guards, flag assumptions and check-argument provenance), plus comparison/identity/verdict/layering/traversal rules",
         "level_text": "Structural clauses, decided for all programs and schedules from the source: every scheduling primitive reaches its tree edits only through the side conditions "
